@@ -334,6 +334,19 @@ def do(op: dict) -> str:
         except Exception as e:  # noqa: BLE001
             return f"error={err_class(e)} msg={str(e)[:60].replace(' ', '_').replace('=', ':')}"
         return "ok " + state_line(kind, sv, False, 0, [])
+    if o == "configdump":
+        from omegaconf import OmegaConf
+        kind, sv = SOLVERS[op["sid"]]
+        c = OmegaConf.to_container(OmegaConf.structured(sv.config), resolve=True)
+        for k in ("checkpoint_dir", "checkpoint_frequency", "max_checkpoints", "enable_async_checkpointing"):
+            c.pop(k, None)
+        pcls = type(sv.problem).__name__
+        attrs = {"period": getattr(sv, "period", None), "gamma": float(sv.gamma), "epsilon": float(sv.epsilon), "problem_class": pcls,
+                 "n_states": int(sv.problem.n_states)}
+        return "config=" + json.dumps(c, sort_keys=True, default=str).replace(" ", "") + " attrs=" + json.dumps(attrs, sort_keys=True).replace(" ", "")
+    if o == "mktmp":
+        os.makedirs(os.path.join(real_dir(op["dir"]), op["name"]), exist_ok=True)
+        return "ok"
     if o == "setvalues":
         kind, sv = SOLVERS[op["sid"]]
         sv.values = jnp.array([float(Fraction(x)) for x in op["V"]], dtype=jnp.float64)
